@@ -153,6 +153,10 @@ func (g *gen) alphaProbe(pool [][]byte) []byte {
 		return append(k, pick(r, boundaryBytes))
 	default:
 		if len(k) > 12 {
+			if r.chance(50) {
+				k[10+r.n(len(k)-11)] ^= byte(1 + r.n(3))
+				return k
+			}
 			return k[:11+r.n(len(k)-11)]
 		}
 	}
@@ -395,7 +399,7 @@ func (g *gen) stops(p profile, approxLen int) string {
 			return strconv.Itoa(r.n(approxLen + 2))
 		}
 	}
-	if !p.multipass {
+	if !p.multipass && !r.chance(20) { // every profile ranges a few sequence values more than once
 		if r.chance(70) {
 			return "-"
 		}
@@ -446,6 +450,11 @@ func (g *gen) history(tid string, ks kindSpec, prof string, nops int) {
 		probe = func() string {
 			if r.chance(70) {
 				return pick(r, pool)
+			}
+			if r.chance(40) {
+				o := string(xbytes(collOrig(pick(r, pool))))
+				t, _ := collKeyText(c, buf, collEquivalent(g, o))
+				return t
 			}
 			t, _ := collKeyText(c, buf, g.collString())
 			return t
@@ -837,16 +846,69 @@ func (g *gen) nodeSeqFile(idx int) {
 				universe = append(universe, b)
 			}
 		}
-		target := []int{3, 5, 17, 49, 256, 40, 13, 4, 2, 60, 256, 2}
+		plans := [][]int{
+			{3, 5, 17, 49, 256, 40, 13, 4, 2, 60, 256, 2},
+			{16, 3, 2, 16, 4, 3}, {16, 2}, {17, 12, 3, 17, 13, 4}, {4, 1, 4, 2}, {5, 3, 5, 4, 17, 16, 17},
+			{48, 20, 48, 13, 12}, {49, 37, 49, 38, 36, 12, 3}, {256, 255, 256, 254, 37, 256}, {256, 37, 12, 3, 2},
+			{30, 25, 30, 14, 30}, {100, 60, 100, 38, 100},
+		}
+		target := plans[(h/4+idx)%len(plans)]
+		if r.chance(25) {
+			target = nil
+			for i := 0; i < 6+r.n(6); i++ {
+				target = append(target, pick(r, fanTargets))
+			}
+		}
 		steps := 0
+		var deleted []int
+		probeDeleted := func() {
+			// bytes removed earlier: the largest and smallest ever removed, and the latest ones (stale lanes, stale slots)
+			if len(deleted) == 0 {
+				return
+			}
+			mx, mn := deleted[0], deleted[0]
+			for _, d := range deleted {
+				if d > mx {
+					mx = d
+				}
+				if d < mn {
+					mn = d
+				}
+			}
+			for _, d := range []int{mx, mn, deleted[len(deleted)-1], pick(r, deleted)} {
+				g.emit("NFIND %s %x", nid, d)
+			}
+		}
+		live := func() []int {
+			var l []int
+			for b := 0; b < 256; b++ {
+				if _, ok := present[b]; ok {
+					l = append(l, b)
+				}
+			}
+			return l
+		}
 		for _, tg := range target {
 			if tg > len(universe) {
 				tg = len(universe)
 			}
-			for len(present) != tg && steps < 3000 {
+			mode := r.n(4) // deletions: 0 random, 1 largest first, 2 smallest first, 3 middle
+			for len(present) != tg && steps < 4000 {
 				steps++
 				b := pick(r, universe)
 				_, has := present[b]
+				if len(present) > tg && len(present) > 2 && mode != 0 {
+					l := live()
+					switch mode {
+					case 1:
+						b = l[len(l)-1]
+					case 2:
+						b = l[0]
+					default:
+						b = l[len(l)/2]
+					}
+					has = true
+				}
 				if len(present) < tg && !has {
 					g.emit("NADD %s %x %d", nid, b, next)
 					present[b] = next
@@ -854,24 +916,66 @@ func (g *gen) nodeSeqFile(idx int) {
 				} else if len(present) > tg && has && len(present) > 2 {
 					g.emit("NDEL %s %x", nid, b)
 					delete(present, b)
+					deleted = append(deleted, b)
 				} else if len(present) > tg && len(present) <= 2 {
 					break
 				} else {
 					continue
 				}
-				switch r.n(6) {
+				switch r.n(7) {
 				case 0:
 					g.emit("NPROBE %s", nid)
 				case 1:
 					g.emit("NENUM %s", nid)
 				case 2:
 					g.emit("NDUMP %s", nid)
+				case 3:
+					probeDeleted()
 				default:
 					g.emit("NFIND %s %x", nid, pick(r, []int{b, r.n(256), 0x00, 0x7f, 0x80, 0xff}))
 				}
 			}
 			g.emit("NPROBE %s", nid)
 			g.emit("NENUM %s", nid)
+			g.emit("NDUMP %s", nid)
+			probeDeleted()
+			// churn inside the size class: remove one child, add a different byte (slot reuse)
+			for c := 0; c < 4+r.n(8) && len(present) > 2 && len(present) < len(universe); c++ {
+				l := live()
+				var b int
+				switch r.n(3) {
+				case 0:
+					b = l[len(l)-1]
+				case 1:
+					b = l[len(l)/2]
+				default:
+					b = pick(r, l)
+				}
+				g.emit("NDEL %s %x", nid, b)
+				delete(present, b)
+				deleted = append(deleted, b)
+				for tries := 0; tries < 600; tries++ {
+					nb := pick(r, universe)
+					if _, has := present[nb]; !has && nb != b {
+						g.emit("NADD %s %x %d", nid, nb, next)
+						present[nb] = next
+						next++
+						break
+					}
+				}
+				if len(present) < tg { // the universe had no other byte: put the old one back
+					g.emit("NADD %s %x %d", nid, b, next)
+					present[b] = next
+					next++
+				}
+				if r.chance(50) {
+					g.emit("NPROBE %s", nid)
+				} else {
+					g.emit("NENUM %s", nid)
+					probeDeleted()
+				}
+			}
+			g.emit("NPROBE %s", nid)
 			g.emit("NDUMP %s", nid)
 		}
 	}
@@ -930,6 +1034,13 @@ func genMain(args []string) {
 			}
 			for h := 0; h < hpf; h++ {
 				ks := kinds[(idx*hpf+h)%len(kinds)]
+				if h%4 == 3 {
+					fk := fanKinds[(idx*hpf+h/4)%len(fanKinds)]
+					if len(parts) <= 2 || strings.HasPrefix(fk.kind, parts[2]) {
+						g.fanout(fmt.Sprintf("t%d", h), fk, prof)
+						continue
+					}
+				}
 				n := nops/2 + g.r.n(nops)
 				if g.r.chance(10) {
 					n *= 6
@@ -965,7 +1076,11 @@ func (g *gen) multiFile(groups, nops int) {
 			if r.chance(50) { // byte-string and small-int trees churn through all node classes fastest
 				ks = pick(r, []kindSpec{{"alpha", "string"}, {"alpha", "bytes"}, {"u2", "uint16"}, {"s2", "int16"}, {"u1", "uint8"}})
 			}
-			sub.history(fmt.Sprintf("m%d", tidBase), ks, pick(r, []string{"full", "shape", "map"}), nops/2+r.n(nops))
+			if r.chance(35) { // wide nodes released by one tree and acquired by another
+				sub.fanout(fmt.Sprintf("m%d", tidBase), pick(r, fanKinds), pick(r, []string{"full", "shape", "map"}))
+			} else {
+				sub.history(fmt.Sprintf("m%d", tidBase), ks, pick(r, []string{"full", "shape", "map"}), nops/2+r.n(nops))
+			}
 			tidBase++
 			bw.Flush()
 			hist = append(hist, strings.Split(strings.TrimRight(bb.String(), "\n"), "\n"))
